@@ -52,6 +52,7 @@ type PathState struct {
 	Inlines    []string         // helpers interpreted inline on this path
 	Panicked   bool             // the path ends in a panic raised inside an inlined helper
 	Resolved   map[string]*Term // call term key -> the value the (pure, branching) callee returns on this path
+	visits     map[*ssa.BasicBlock]int // how often each block has been entered so far (unrolled loops)
 }
 
 // PhiIn returns, for a path that ended by entering StopBlock, the term flowing into phi (a phi of StopBlock).
@@ -137,7 +138,7 @@ func (s *PathState) compute(v ssa.Value) *Term {
 	case *ssa.Builtin:
 		return mk("fn", "builtin "+x.Name(), "builtin:"+x.Name(), v)
 	case *ssa.Alloc:
-		id := instrID(x)
+		id := s.iid(x)
 		return mk("alloc", typeStr(x.Type()), "alloc@"+id, v)
 	case *ssa.ChangeType:
 		return s.T(x.X)
@@ -182,7 +183,7 @@ func (s *PathState) compute(v ssa.Value) *Term {
 		if x.Op == token.MUL || x.Op == token.ARROW {
 			// loads and receives are evaluated in order by step(); reaching here means the
 			// instruction was not on the path prefix (e.g. value defined after target)
-			return mk("other", "", "late@"+instrID(x), v)
+			return mk("other", "", "late@"+s.iid(x), v)
 		}
 		a := s.T(x.X)
 		return mk("unop", opString(x.Op), "("+opString(x.Op)+a.K+")", v, a)
@@ -196,6 +197,9 @@ func (s *PathState) compute(v ssa.Value) *Term {
 		return mk("field", fn, a.K+"."+fn, v, a)
 	case *ssa.IndexAddr:
 		a, i := s.T(x.X), s.T(x.Index)
+		if a.Op == "slice" && len(a.Args) == 4 && a.Args[1] == nil && a.Args[2] == nil && a.Args[3] == nil && a.Args[0] != nil && a.Args[0].Op == "alloc" {
+			a = a.Args[0] // arr[:][i] is arr[i]
+		}
 		return mk("indexaddr", "", "&"+a.K+"["+i.K+"]", v, a, i)
 	case *ssa.Index:
 		a, i := s.T(x.X), s.T(x.Index)
@@ -206,12 +210,12 @@ func (s *PathState) compute(v ssa.Value) *Term {
 		if x.CommaOk {
 			aux = "commaok"
 		}
-		return mk("lookup", aux, "lookup@"+instrID(x)+"{"+a.K+"["+i.K+"]}", v, a, i)
+		return mk("lookup", aux, "lookup@"+s.iid(x)+"{"+a.K+"["+i.K+"]}", v, a, i)
 	case *ssa.Slice:
 		if al, ok := x.X.(*ssa.Alloc); ok && al.Comment == "makeslice" && x.Low == nil && x.High != nil {
 			// make([]T, n) with constant n is lowered to new [n]T + slice
 			l := s.T(x.High)
-			return mk("make", "slice", "makeslice@"+instrID(al), v, l)
+			return mk("make", "slice", "makeslice@"+s.iid(al), v, l)
 		}
 		a := s.T(x.X)
 		args := []*Term{a}
@@ -236,30 +240,30 @@ func (s *PathState) compute(v ssa.Value) *Term {
 	case *ssa.TypeAssert:
 		a := s.T(x.X)
 		if x.CommaOk {
-			return mk("other", "typeassert", "assert@"+instrID(x), v, a)
+			return mk("other", "typeassert", "assert@"+s.iid(x), v, a)
 		}
 		return mk("conv", typeStr(x.AssertedType), "assert<"+typeStr(x.AssertedType)+">("+a.K+")", v, a)
 	case *ssa.MakeSlice:
 		l := s.T(x.Len)
-		return mk("make", "slice", "makeslice@"+instrID(x), v, l)
+		return mk("make", "slice", "makeslice@"+s.iid(x), v, l)
 	case *ssa.MakeChan:
 		l := s.T(x.Size)
-		return mk("make", "chan", "makechan@"+instrID(x), v, l)
+		return mk("make", "chan", "makechan@"+s.iid(x), v, l)
 	case *ssa.MakeMap:
-		return mk("make", "map", "makemap@"+instrID(x), v)
+		return mk("make", "map", "makemap@"+s.iid(x), v)
 	case *ssa.MakeClosure:
 		args := []*Term{}
 		for _, b := range x.Bindings {
 			args = append(args, s.T(b))
 		}
-		return mk("closure", x.Fn.(*ssa.Function).String(), "closure@"+instrID(x), v, args...)
+		return mk("closure", x.Fn.(*ssa.Function).String(), "closure@"+s.iid(x), v, args...)
 	case *ssa.Phi:
-		return mk("phi", "", "phi@"+instrID(x), v)
+		return mk("phi", "", "phi@"+s.iid(x), v)
 	case *ssa.Call:
-		return mk("other", "call", "latecall@"+instrID(x), v)
+		return mk("other", "call", "latecall@"+s.iid(x), v)
 	}
 	if in, ok := v.(ssa.Instruction); ok {
-		return mk("other", fmt.Sprintf("%T", v), "v@"+instrID(in), v)
+		return mk("other", fmt.Sprintf("%T", v), "v@"+s.iid(in), v)
 	}
 	return mk("other", fmt.Sprintf("%T", v), fmt.Sprintf("v@%p", v), v)
 }
@@ -325,7 +329,7 @@ func (s *PathState) load(in *ssa.UnOp) *Term {
 		}
 	}
 	if s.loopy[a.K] {
-		ver += "@" + instrID(in)
+		ver += "@" + s.iid(in)
 	}
 	t := mk("load", "", "load("+a.K+")"+ver, in, a)
 	t.In = in
@@ -386,7 +390,7 @@ func (s *PathState) step(in ssa.Instruction) {
 			s.env[x] = s.load(x)
 		} else if x.Op == token.ARROW {
 			c := s.T(x.X)
-			t := mk("recv", "", "recv@"+instrID(x), x, c)
+			t := mk("recv", "", "recv@"+s.iid(x), x, c)
 			t.In = x
 			s.env[x] = t
 			s.Events = append(s.Events, Event{Kind: "recv", In: x, Args: []*Term{c}, Res: t})
@@ -406,7 +410,7 @@ func (s *PathState) step(in ssa.Instruction) {
 	case *ssa.Send:
 		s.Events = append(s.Events, Event{Kind: "send", In: x, Args: []*Term{s.T(x.Chan), s.T(x.X)}})
 	case *ssa.Select:
-		t := mk("select", "", "select@"+instrID(x), x)
+		t := mk("select", "", "select@"+s.iid(x), x)
 		t.In = x
 		for _, st := range x.States {
 			t.Args = append(t.Args, s.T(st.Chan))
@@ -417,7 +421,7 @@ func (s *PathState) step(in ssa.Instruction) {
 		s.Events = append(s.Events, ev)
 	case *ssa.Call:
 		ev := s.callEvent("call", x)
-		id := instrID(x)
+		id := s.iid(x)
 		key := "call@" + id + "<" + shortCallee(ev.Callee) + ">"
 		if (ev.Callee == "builtin len" || ev.Callee == "builtin cap") && len(ev.Args) == 1 && ev.Args[0] != nil {
 			// len/cap of a string or slice value is a pure function of that value
@@ -429,6 +433,12 @@ func (s *PathState) step(in ssa.Instruction) {
 		t := mk("call", ev.Callee, key, x, ev.Args...)
 		t.Fn = fnName(s.Fn)
 		t.In = x
+		if ev.Callee == "builtin len" && len(x.Common().Args) == 1 {
+			if n, ok := constLen(x.Common().Args[0]); ok {
+				k := fmt.Sprint(n)
+				t = &Term{K: "c:" + k, Op: "const", Aux: k, Folded: true, Int: n, V: x}
+			}
+		}
 		ev.Res = t
 		s.env[x] = t
 		s.Events = append(s.Events, ev)
@@ -1089,6 +1099,23 @@ func EnumPathsTo(fn *ssa.Function, from *ssa.BasicBlock, target ssa.Instruction,
 		// it; only cycles that do not pass through the header (inner loops) can hide stores
 		cyc = cyclicExcluding(fn, stop)
 	}
+	// loops with a constant trip count are unrolled: their blocks may recur, and they hide nothing
+	trips := constTripLoops(fn)
+	limit := func(b *ssa.BasicBlock) int {
+		tl := trips[b]
+		if tl == nil || (stop != nil && tl.Body[stop]) {
+			return 1
+		}
+		if b == tl.Header {
+			return tl.Count + 1
+		}
+		return tl.Count
+	}
+	for b := range cyc {
+		if limit(b) > 1 {
+			delete(cyc, b)
+		}
+	}
 	loopy := map[string]bool{}
 	if len(cyc) > 0 {
 		// addresses stored inside a cycle are not tracked across blocks
@@ -1103,7 +1130,7 @@ func EnumPathsTo(fn *ssa.Function, from *ssa.BasicBlock, target ssa.Instruction,
 	}
 	res := EnumResult{Complete: true}
 	var path []*ssa.BasicBlock
-	on := map[*ssa.BasicBlock]bool{}
+	on := map[*ssa.BasicBlock]int{}
 	var dfs func(b *ssa.BasicBlock)
 	var stopNow *ssa.BasicBlock
 	run := func() {
@@ -1131,11 +1158,14 @@ func EnumPathsTo(fn *ssa.Function, from *ssa.BasicBlock, target ssa.Instruction,
 			return
 		}
 		path = append(path, b)
-		on[b] = true
-		defer func() { path = path[:len(path)-1]; on[b] = false }()
+		on[b]++
+		defer func() { path = path[:len(path)-1]; on[b]-- }()
 		if target != nil && b == target.Block() {
 			run()
-			return
+			if limit(b) <= 1 {
+				return
+			}
+			// inside an unrolled loop: the target is reached again in later iterations
 		}
 		if target == nil {
 			switch b.Instrs[len(b.Instrs)-1].(type) {
@@ -1151,7 +1181,7 @@ func EnumPathsTo(fn *ssa.Function, from *ssa.BasicBlock, target ssa.Instruction,
 				stopNow = nil
 				continue
 			}
-			if on[nx] {
+			if on[nx] >= limit(nx) {
 				continue
 			}
 			if target != nil && !canReach[nx] {
@@ -1174,6 +1204,10 @@ func (s *PathState) exec(bi, ii int, target ssa.Instruction, emit func(*PathStat
 			start = ii
 		}
 		if start == 0 {
+			if s.visits == nil {
+				s.visits = map[*ssa.BasicBlock]int{}
+			}
+			revisit := s.visits[b] > 0
 			var pred *ssa.BasicBlock
 			if i > 0 {
 				pred = s.Blocks[i-1]
@@ -1199,13 +1233,22 @@ func (s *PathState) exec(bi, ii int, target ssa.Instruction, emit func(*PathStat
 					}
 				}
 			}
+			s.visits[b]++
+			if revisit {
+				// next iteration of an unrolled loop: the block's values are computed afresh
+				for _, in := range b.Instrs {
+					if v, ok := in.(ssa.Value); ok {
+						delete(s.env, v)
+					}
+				}
+			}
 			for _, x := range pvs {
 				s.env[x.p] = x.t
 			}
 		}
 		for k := start; k < len(b.Instrs); k++ {
 			in := b.Instrs[k]
-			if in == target {
+			if in == target && i == len(s.Blocks)-1 {
 				emit(s)
 				return
 			}
